@@ -36,6 +36,8 @@ def run_impl(prop, cases, hashseed, per_case_timeout, env_extra=None):
     env["PYTHONHASHSEED"] = str(hashseed)
     env[common.GUARD] = "1"
     env["PYTHONWARNINGS"] = "ignore"
+    if common.REPO != "/repo":  # development: run the implementation from a scratch worktree
+        env["PYTHONPATH"] = common.REPO
     if env_extra:
         env.update(env_extra)
     while todo:
@@ -190,14 +192,14 @@ def main():
         (known_hits if hit else new_sem).append((v, hit))
     violations = 0
     lines = []
-    os.makedirs(os.path.join(common.VERIF, "replay"), exist_ok=True)
+    os.makedirs(os.path.join(common.OUT, "replay"), exist_ok=True)
     for v, hit in known_hits:
         lines.append(f"KNOWN-FINDING: property={prop} {hit['what']}")
     if new_sem:
         v = new_sem[0][0]
         path = os.path.join("replay", f"{prop}_{tier}_{seed}.json")
         json.dump({"property": prop, "kind": "semantic", "failing": [x[0] for x in new_sem[:10]],
-                   "proof_problems": proof_problems}, open(os.path.join(common.VERIF, path), "w"), indent=1, ensure_ascii=False)
+                   "proof_problems": proof_problems}, open(os.path.join(common.OUT, path), "w"), indent=1, ensure_ascii=False)
         lines.append(f"VIOLATION property={prop} replay={path}")
         violations = len(new_sem)
     elif structural or proof_problems:
@@ -205,7 +207,7 @@ def main():
         json.dump({"property": prop, "kind": "no-failing-input-found",
                    "no_longer_checks": [p["kind"] + ": " + str(p["detail"])[:1500] for p in proof_problems] +
                                        [f"correspondence {s.get('op')}: {s.get('what')}" for s in structural[:10]],
-                   "first_disagreements": structural[:5]}, open(os.path.join(common.VERIF, path), "w"), indent=1, ensure_ascii=False)
+                   "first_disagreements": structural[:5]}, open(os.path.join(common.OUT, path), "w"), indent=1, ensure_ascii=False)
         lines.append(f"VIOLATION property={prop} replay={path} no-failing-input-found")
         violations = max(1, len(structural))
     wall = time.time() - t0
@@ -225,8 +227,8 @@ def main():
     cov.update(rep.get("extra", {}))
     ev = {"property_id": prop, "tier": tier, "seed": seed, "level": "proof", "coverage": cov,
           "assumptions": rep.get("assumptions", []), "wall_s": round(wall, 2), "violations": violations}
-    os.makedirs(os.path.join(common.VERIF, "evidence"), exist_ok=True)
-    json.dump(ev, open(os.path.join(common.VERIF, "evidence", f"{prop}.json"), "w"), indent=1, ensure_ascii=False)
+    os.makedirs(os.path.join(common.OUT, "evidence"), exist_ok=True)
+    json.dump(ev, open(os.path.join(common.OUT, "evidence", f"{prop}.json"), "w"), indent=1, ensure_ascii=False)
     for l in lines:
         print(l)
     print(f"{prop} {tier} seed={seed}: obligations {len(discharged)}/{len(expected)}, evaluations {cov['evaluations']}, "
